@@ -20,7 +20,7 @@ META = {
     "note": ("Values are abstracted to value ids (hash of the array bytes); cache coherence is a boolean computed by the recorder "
              "with rtol 1e-9 from fresh evaluations of the block sampler's own target. Distribution-level invariance is decided "
              "as structural conformance + the finite rational theorem, not by ergodic averages."),
-    "technique": "TLA+ spec (Gibbs) model-checked with TLC; recorded Gibbs executions validated by TLC against TraceGibbs; TLC-enumerated configurations realised",
+    "technique": "TLA+ spec (Gibbs) model-checked with TLC (core safety also as an Apalache inductive invariant); recorded Gibbs executions validated by TLC against TraceGibbs; TLC-enumerated configurations realised",
 }
 
 import itertools, os, random, warnings
@@ -185,6 +185,21 @@ def run(ctx):
     r = ctx.tlc("GibbsInvariance", cfg="GibbsInvariance.dev_stale.cfg", workers=4, expect_violation=True)
     if r.ok or r.violated != "Invariant":
         raise MachineryError("stale conditioning did not break pi P = pi on the rational model")
+    # 1b. unbounded: the core safety properties as an inductive invariant, discharged by Apalache (any number of sweeps,
+    #     any version ids); the named deviation must break the inductive step (thorough tier; ~10 s per obligation)
+    if ctx.tier == "thorough":
+        from cuqiverif import apalache
+        obligations = [("Init", "IndInv", 0, "Next", "ok"), ("IndInv", "IndInv", 1, "Next", "ok"), ("IndInv", "IndInv", 1, "NextDev", "violated")]
+        done = []
+        for init, inv, length, nxt, want in obligations:
+            got, secs = apalache.check("GibbsInd", init, inv, length, nxt=nxt)
+            done.append({"init": init, "inv": inv, "length": length, "next": nxt, "outcome": got, "s": round(secs, 1)})
+            if got != want:
+                if want == "ok":
+                    ctx.mismatch("model/GibbsInd/%s" % inv, {"kind": "model"}, "inductive invariant of the Gibbs core is not inductive (%s, length %d)" % (init, length))
+                else:
+                    raise MachineryError("deviation RestoreKeepsOldCache does not break the inductive step: obligation is vacuous")
+        ctx.observe("apalache_inductive_invariant", done)
     # 2. configurations enumerated by TLC, realised and recorded
     seen, configs = set(), []
     for c in res.cases:
